@@ -130,21 +130,35 @@ def eval_unit(unit, tier):
         if resource:
             out["status"] = "undecided"
             out["reasons"].append(f"resource limit in {f.key}")
-    # ---- vacuity canaries
+    # ---- vacuity canaries and known-finding variants (run concurrently)
+    jobs = []
     if out["status"] == "ok":
-        kinds = ["entry"]
+        jobs.append(("canary", "entry"))
         if any(f.loops for f in unit.fns() if f.mode == "prove" and f.canary):
-            kinds.append("loops")
-        for kind in kinds:
-            try:
-                can = R.evaluate_base(unit, f"canary_{kind}", variant=("canary", kind))
-            except Undecided as e:
-                out["status"] = "undecided"
-                out["reasons"].append(f"canary extraction: {e}")
-                break
-            out["cmds"].append(can["res"]["cmd"])
+            jobs.append(("canary", "loops"))
+    for fd in unit.findings:
+        jobs.append(("finding", fd))
+
+    def run_job(job):
+        try:
+            if job[0] == "canary":
+                return job, R.evaluate_base(unit, f"canary_{job[1]}", variant=("canary", job[1])), None
+            return job, R.evaluate_base(unit, f"finding_{slug(job[1].fid)}", variant=("finding", job[1])), None
+        except Undecided as e:
+            return job, None, str(e)
+
+    with cf.ThreadPoolExecutor(max_workers=4) as ex:
+        done = list(ex.map(run_job, jobs))
+    for job, var, err in done:
+        if err is not None:
+            out["status"] = "undecided"
+            out["reasons"].append(f"{job[0]} variant extraction: {err}")
+            continue
+        out["cmds"].append(var["res"]["cmd"])
+        if job[0] == "canary":
+            kind = job[1]
             got = set()
-            for e in can["errs"]:
+            for e in var["errs"]:
                 for t, i in e["regions"]:
                     if t == "CANARY" and e["sev"] == "definite":
                         got.add(i)
@@ -158,25 +172,18 @@ def eval_unit(unit, tier):
                     if not ok:
                         out["status"] = "undecided"
                         out["reasons"].append(f"VACUOUS: canary {w} verified (contradictory precondition/invariant/assumption)")
-    # ---- known-finding variants
-    for fd in unit.findings:
-        try:
-            var = R.evaluate_base(unit, f"finding_{slug(fd.fid)}", variant=("finding", fd))
-        except Undecided as e:
-            out["status"] = "undecided"
-            out["reasons"].append(f"finding variant extraction: {e}")
-            continue
-        out["cmds"].append(var["res"]["cmd"])
-        pf = var["per_fn"].get(fd.fn_key, {"clauses": {}, "safety": []})
-        if fd.expect_clause is None:
-            fails = bool(pf["safety"])
-            detail = [e["rendered"] for e in pf["safety"]]
         else:
-            errs = pf["clauses"].get(f"{fd.fn_key}#{fd.expect_clause}", [])
-            fails = bool(errs)
-            detail = [e["rendered"] for e in errs]
-        out["findings"].append({"id": fd.fid, "props": list(fd.props), "fn": fd.fn_key, "what": fd.what,
-                                "still_fails": fails, "detail": detail, "domain": fd.domain_requires})
+            fd = job[1]
+            pf = var["per_fn"].get(fd.fn_key, {"clauses": {}, "safety": []})
+            if fd.expect_clause is None:
+                errs = pf["safety"]
+            else:
+                want = fd.expect_clause if isinstance(fd.expect_clause, (list, tuple)) else [fd.expect_clause]
+                errs = []
+                for w in want:
+                    errs += pf["safety"] if w == "safety" else pf["clauses"].get(f"{fd.fn_key}#{w}", [])
+            out["findings"].append({"id": fd.fid, "props": list(fd.props), "fn": fd.fn_key, "what": fd.what,
+                                    "still_fails": bool(errs), "detail": [e["rendered"] for e in errs][:3], "domain": fd.domain_requires})
     out["wall_s"] = time.time() - t0
     return out
 
